@@ -4,7 +4,7 @@ from whad.protocol.whad_pb2 import Message
 from whad.scapy.layers.phy import Phy_Packet
 from whad.hub.phy import PhyMetadata, Endianness, Modulation, Syncword
 from ..message import pb_bind, PbFieldInt, PbFieldBytes,PbFieldArray, PbMessageWrapper, \
-    dissect_failsafe
+    dissect_failsafe, convert_failsafe
 from . import PhyDomain
 
 from .timestamp import Timestamp
@@ -60,6 +60,7 @@ class SendPacket(PbMessageWrapper):
 
 
     @staticmethod
+    @convert_failsafe
     def from_packet(packet):
         """Convert packet to message
         """
@@ -82,6 +83,7 @@ class SendRawPacket(PbMessageWrapper):
 
 
     @staticmethod
+    @convert_failsafe
     def from_packet(packet):
         """Convert packet to message
         """
@@ -115,6 +117,7 @@ class PacketReceived(PbMessageWrapper):
         return packet
 
     @staticmethod
+    @convert_failsafe
     def from_packet(packet):
         """Convert packet to message
         """
@@ -171,6 +174,7 @@ class ExtendedPacketReceived(PacketReceived):
         return packet
 
     @staticmethod
+    @convert_failsafe
     def from_packet(packet):
         """Convert packet to message
         """
@@ -229,6 +233,7 @@ class RawPacketReceived(PbMessageWrapper):
         return packet
 
     @staticmethod
+    @convert_failsafe
     def from_packet(packet):
         """Convert packet to message
         """
@@ -289,6 +294,7 @@ class ExtendedRawPacketReceived(PbMessageWrapper):
         return packet
 
     @staticmethod
+    @convert_failsafe
     def from_packet(packet):
         """Convert packet to message
         """
